@@ -1,8 +1,86 @@
-/- Driver ops for C12 (none yet). -/
-import Xrfmv.Drv.Common
+/-
+Driver ops for C12: the ops of C13 (codec on `Float`) plus
+
+  ensemble {mode, eps, invA?, trees: [{kind:"hard", raw: rows×m} | {kind:"soft", w: rows×L, raws: L×rows×m}]}
+     -> probs      rows×K   `xRFM.predict_proba`: mean over trees of (leaf decode | Σ_l w_l · leaf decode)
+        rawMean    rows×m   mean over trees of the raw outputs (what `xRFM.predict` decodes)
+        labelProbs rows×K   decode of `rawMean`
+        labels     rows     its arg-max (`xRFM.predict`)
+Rejected (`bad-op`): no tree, ragged / wrongly sized / non-finite arrays, eps outside (0,1), K < 2.
+-/
+import Xrfmv.Drv.C13
+
+open Lean Xrfmv.Drv Xrfmv.Codec Xrfmv.Drv.C13
 
 namespace Xrfmv.Drv.C12
 
-def ops : List (String × Handler) := []
+inductive TreeJ where
+  | hard (raw : Array (Array Float))
+  | soft (L : Nat) (w : Array (Array Float)) (raws : Array (Array (Array Float)))
+
+def getFsss (j : Json) (k : String) : Except String (Array (Array (Array Float))) := do
+  let a ← j.getObjValAs? (Array (Array (Array Nat))) k
+  pure (a.map fun m => m.map fun r => r.map bitsToFloat)
+
+def parseTree (rows m : Nat) (j : Json) : Except String TreeJ := do
+  let kind ← j.getObjValAs? String "kind"
+  match kind with
+  | "hard" =>
+    let raw ← getFss j "raw"
+    checkMat "raw" raw rows m
+    pure (.hard raw)
+  | "soft" =>
+    let w ← getFss j "w"
+    let raws ← getFsss j "raws"
+    let L := raws.size
+    if L == 0 then throw "bad-op: soft tree without leaves"
+    checkMat "w" w rows L
+    for r in raws do
+      checkMat "raws" r rows m
+    pure (.soft L w raws)
+  | _ => throw "bad-op: unknown tree kind"
+
+def TreeJ.at (m : Nat) (i : Nat) : TreeJ → TreeAt Float m
+  | .hard raw => .hard (toVec (raw.getD i #[]) m)
+  | .soft L w raws => .soft L (toVec (w.getD i #[]) L) (fun l => toVec ((raws.getD l.val #[]).getD i #[]) m)
+
+def ensembleRows (n m rows : Nat) (P : Vec Float m → Vec Float (n + 1)) (trees : Array TreeJ) : Json :=
+  let T := trees.size
+  let view (i : Nat) : Fin T → TreeAt Float m := fun t => (trees.getD t.val (.hard #[])).at m i
+  let idx := Array.range rows
+  Json.mkObj [
+    ("probs", fssJson (idx.map fun i => ofVec (predictProba P (view i)))),
+    ("rawMean", fssJson (idx.map fun i => ofVec (predictRaw (view i)))),
+    ("labelProbs", fssJson (idx.map fun i => ofVec (P (predictRaw (view i))))),
+    ("labels", toJson (idx.map fun i => (predictLabel P (view i)).val))]
+
+def opEnsemble : Handler := fun j => do
+  let mode ← j.getObjValAs? String "mode"
+  let eps ← getEps j
+  let rows ← j.getObjValAs? Nat "rows"
+  let tj ← j.getObjValAs? (Array Json) "trees"
+  if tj.size == 0 then throw "bad-op: no tree"
+  match mode with
+  | "prevalence" =>
+    let ia ← getFss j "invA"
+    if ia.size < 2 then throw "bad-op: n_classes < 2"
+    let n := ia.size - 1
+    checkMat "invA" ia (n + 1) (n + 1)
+    let invA := toMat ia (n + 1) (n + 1)
+    let trees ← tj.mapM (parseTree rows n)
+    pure (ensembleRows n n rows (probasPrevInv eps invA) trees)
+  | "zero_one" =>
+    let m ← j.getObjValAs? Nat "width"
+    if m == 0 then throw "bad-op: empty decoder rows"
+    if m == 1 then
+      let trees ← tj.mapM (parseTree rows 1)
+      pure (ensembleRows 1 1 rows (probasBinary eps) trees)
+    else
+      let n := m - 1
+      let trees ← tj.mapM (parseTree rows (n + 1))
+      pure (ensembleRows n (n + 1) rows (probasMulti eps) trees)
+  | _ => throw "bad-op: unknown mode"
+
+def ops : List (String × Handler) := Xrfmv.Drv.C13.ops ++ [("ensemble", opEnsemble)]
 
 end Xrfmv.Drv.C12
